@@ -495,6 +495,12 @@ func main() {
 					astutil.DeleteImport(p.Fset, f, "time")
 				}
 			}
+			// a file whose only uses of a package were calls that are now routed elsewhere
+			for _, path := range []string{"os", "context", "sync/atomic", "path/filepath", "io/ioutil"} {
+				if !astutil.UsesImport(f, path) {
+					astutil.DeleteImport(p.Fset, f, path)
+				}
+			}
 			var buf bytes.Buffer
 			if err := printer.Fprint(&buf, p.Fset, f); err != nil {
 				fail("print %s: %v", name, err)
